@@ -803,6 +803,8 @@ FAMS = {
           "N: a = y | z | y and z | z and y, b = [user]|[user,employee] optionally `or b from p` (recursive), c = [user]|[user,employee] (48 models)"),
     "Q": ({"R": 3, "NEST0": 1, "L11": M(0, 1), "L12": M(0, 1, 2)},
           "Q: a = (A1 op1 A2) op (B1 op2 B2) with operands from {[user],[user,employee],y,z}, all 27 operator triples; b, c leaves (2592 models)"),
+    "Q2": ({"R": 3, "NEST0": 2, "NEST1": 2, "L12": M(0, 1)},
+           "Q2: a and b = (A1 op1 A2) op B1 with A1 in {[user], y}, A2, B1 in {y, z}, all 9 operator pairs each; c = [user]|[user,employee] (nested operators of the same kind in two relations; 10368 models)"),
     "W": ({"R": 2, "L10": M(0, 16, 19), "L20": M(16, 19), "L11": M(0, 16)}, "W: a = [user] | b | b from p, optionally op (b | b from p) - parallel lines between the same two nodes; b = [user] | a (38 models)"),
     "L": ({"R": 3, "L10": M(0, 4, 5, 9, 10, 16), "L11": M(0, 4, 5, 9, 10, 16, 17), "L12": M(0, 4, 5, 9, 10, 16, 17), "L22": M(16, 17), "OP2": 3},
           "L: three relations with multi-userset restrictions (interlocking tuple cycles)"),
@@ -847,7 +849,7 @@ THOROUGH_GRAPH = [("J4", *RR), ("J5", *RR), ("J6", *RR), ("Q", *RR), ("N", *RA),
 
 
 def c04(tier):
-    graph_check("C04", 4, tier, [("B", *FI), ("J", *FI), ("J4", *FI), ("K", *FI), ("Q", *FI), ("N", *RA), ("H", *RR), ("L", *RR), ("C", *RA)], THOROUGH_GRAPH, extra_jobs=kernels())
+    graph_check("C04", 4, tier, [("B", *FI), ("J", *FI), ("J4", *FI), ("K", *FI), ("Q", *FI), ("Q2", *FI), ("N", *RA), ("H", *RR), ("L", *RR), ("C", *RA)], THOROUGH_GRAPH, extra_jobs=kernels())
 
 
 def c05(tier):
@@ -862,7 +864,7 @@ def c06(tier):
 
 
 def c10(tier):
-    graph_check("C10", 10, tier, [("B", *FI), ("P", *FI), ("J", *FI), ("J4", *FI), ("J5", *FI), ("J6", *FI), ("K", *FI), ("H", *FI), ("G", *FI), ("Q", *FI)], [("D", *FI), ("E", *FI), ("P", *RA), ("L", *FI), ("G", *FI), ("H", *FI), ("J", *FI), ("K", *FI)])
+    graph_check("C10", 10, tier, [("B", *FI), ("P", *FI), ("J", *FI), ("J4", *FI), ("J5", *FI), ("J6", *FI), ("K", *FI), ("H", *FI), ("G", *FI), ("Q", *FI), ("Q2", *FI)], [("D", *FI), ("E", *FI), ("P", *RA), ("L", *FI), ("G", *FI), ("H", *FI), ("J", *FI), ("K", *FI)])
 
 
 def c11(tier):
@@ -1074,7 +1076,7 @@ def c17(tier):
             T("graph", "VerifC17_Lookup", dict(FAMS["A"][0], LEN=W(tier, 6, 8)), init_allow=["gonum.org/v1/gonum/graph/encoding/dot"]),
             T("graph", "VerifC17_Lookup", dict(FAMS["H"][0], LEN=W(tier, 6, 8)), init_allow=["gonum.org/v1/gonum/graph/encoding/dot"])]
     if not q:
-        jobs += [J("VerifC17_Faithful", "Q"), J("VerifC17_Faithful", "G"), J("VerifC17_Faithful", "E"), J("VerifC17_Faithful", "L"), J("VerifC17_Faithful", "P"),
+        jobs += [J("VerifC17_Faithful", "Q"), J("VerifC17_Faithful", "Q2"), J("VerifC17_Faithful", "G"), J("VerifC17_Faithful", "E"), J("VerifC17_Faithful", "L"), J("VerifC17_Faithful", "P"),
                  J("VerifC17_Reversed", "C", PAIRS=4, WINDOWS=3), J("VerifC17_Reversed", "B", PAIRS=4, WINDOWS=3), J("VerifC17_Reversed", "H", PAIRS=4, WINDOWS=3), J("VerifC17_Stable", "A", C17_WIDE),
                  J("VerifC17_Stable", "H"), J("VerifC17_Stable", "G"), J("VerifC17_Stable", "Q"),
                  J("VerifC17_Cycles", "E"), J("VerifC17_Cycles", "B")]
@@ -1089,7 +1091,7 @@ def c17(tier):
                          repeat_native=40,
                          bounds={"label lookup": "every byte string of length <= %d as the label (solver-decided which node it names)" % W(tier, 6, 8),
                                  "names": "three relations named by any 3 of {a, A, b, ab, B, a_b, aB} (names that differ in case only or are prefixes of each other), 3 operators",
-                                 "families": ", ".join(sorted(set(FAMILY_TEXT[n] for n in ("A", "B", "C", "H", "J", "J4", "J5", "J6", "K", "N", "W") + (() if q else ("Q", "G", "E", "L", "P")))))})
+                                 "families": ", ".join(sorted(set(FAMILY_TEXT[n] for n in ("A", "B", "C", "H", "J", "J4", "J5", "J6", "K", "N", "W") + (() if q else ("Q", "Q2", "G", "E", "L", "P")))))})
     out.finish()
 
 
